@@ -304,15 +304,18 @@ def _big_cases(args):
     from renormalizer.mps import gs, Mps
     from renormalizer.utils import OptimizeConfig
     from .. import states as st
-    seed, method, nroots, M = args
+    seed, method, nroots, M, cplx = args
     out = {"cases": [], "viol": [], "traces": 0, "stats": {"micro": 0, "min_gap": 1.0}}
-    detail = {"system": "vibrational chain 3-6-6-6-3", "method": method, "nroots": nroots, "M": M, "algo": "davidson"}
+    detail = {"system": "vibrational chain 3-6-6-6-3", "method": method, "nroots": nroots, "M": M, "algo": "davidson", "complex_start": cplx}
     out["cases"].append(json.dumps(detail))
     try:
         model, mpo, H, dims = _big_system(seed)
         exact = np.linalg.eigvalsh(H)
         reseed_global(seed, "c08-big", method, nroots)
         mps = Mps.random(model, 0, M, percent=1.0)
+        if cplx:
+            # a complex-valued initial guess (e.g. a time-evolved state): the iterative solver works with complex trial vectors
+            mps = st.complexify(mps, rng_for(seed, "c08-big-cplx", method, M))
         mps.optimize_config = OptimizeConfig(procedure=[[M, 0.3], [M, 0], [M, 0], [M, 0]])
         mps.optimize_config.method, mps.optimize_config.algo, mps.optimize_config.nroots = method, "davidson", nroots
         used = []
@@ -330,7 +333,7 @@ def _big_cases(args):
         out["stats"]["iterative_calls"] = len(used)
         for isw, sweep in enumerate(rec.micro):
             for e, cidx in sweep:
-                es = np.atleast_1d(np.asarray(e, dtype=float))
+                es = np.real(np.atleast_1d(np.asarray(e)))
                 out["stats"]["micro"] += len(es)
                 for k, ek in enumerate(es):
                     if ek < exact[k] - 1e-8:
@@ -621,7 +624,8 @@ def run(ctx):
         jobs = rnd.sample(jobs, 6000)
     n = 64
     res = pmap(_chain_cases, [(jobs[i::n], ctx.seed, schedules) for i in range(n) if jobs[i::n]], chunksize=1)
-    big = [(ctx.seed, m, k, M) for m in ("1site", "2site") for k in (1, 3) for M in ((8, 18) if tier == "quick" else (6, 10, 14, 18))]
+    big = [(ctx.seed, m, k, M, False) for m in ("1site", "2site") for k in (1, 3) for M in ((8, 18) if tier == "quick" else (6, 10, 14, 18))]
+    big += [(ctx.seed, m, 1, M, True) for m in ("1site", "2site") for M in ((18,) if tier == "quick" else (10, 18))]
     res += pmap(_big_cases, big, chunksize=1)
     res += pmap(_qc_cases, [(ctx.seed, k) for k in range(6 if tier == "quick" else 24)], chunksize=1)
     # ---------------------------------------------------------------- tree runs
